@@ -464,6 +464,8 @@ func modeFmt1(a args) {
 	t := task.NewTask()
 	t.Name = "subject"
 	t.Commands = []string{"printf 'line one\\nline two\\n'", "printf 'three\\n'"}
+	warmUp := strings.HasPrefix(sp.Outcome, "then-") // another task has really run on this runner before
+	sp.Outcome = strings.TrimPrefix(sp.Outcome, "then-")
 	switch sp.Outcome {
 	case "fail":
 		t.Commands[1] = "printf 'three\\n'; exit 9"
@@ -482,6 +484,11 @@ func modeFmt1(a args) {
 	var so syncBuf
 	r.Stdout, r.Stderr = &so, io.Discard
 	r.OutputFormat = sp.Format
+	if warmUp {
+		w := task.FromCommands("printf 'warm-up\\n'")
+		w.Name = "warm-up"
+		r.Run(w)
+	}
 	err := r.Run(t)
 	r.Finish()
 	res := map[string]interface{}{"k": "fmtresult", "err": err != nil, "errored": t.Errored, "skipped": t.Skipped, "exit_code": t.ExitCode, "output": t.Output()}
